@@ -9,6 +9,7 @@ import Pyunicorn.Lemmas.Coupling4
 import Pyunicorn.Lemmas.CouplingOccupancy
 import Pyunicorn.Lemmas.CouplingGJ
 import Pyunicorn.Lemmas.CouplingGJ2
+import Pyunicorn.Lemmas.CouplingOccupancy2
 import Pyunicorn.Generated.StructC10
 /-!
 # C10 — Similarity and coupling estimates equal reference statistics
@@ -1356,5 +1357,45 @@ theorem model_partial_correlation_total (n N : Nat) (r : Nat → Nat → Rat)
     exact absurd (hreg v hc l hl) hne
   | some P =>
     exact ⟨P, rfl, fun i j hi hj hij => model_partial_correlation n N r P h i j hi hj hij⟩
+
+/-! ## Round 5: occupancy of the quantile bins for every row length -/
+
+/-- **occupancy, any `T`** (closes "equal occupancy for `bins ∤ T`: no closed form stated"): for a
+tie-free row of `T ≥ 1` samples and `step = ceil(T / bins)` (the `bin_edge` of the source),
+`_quantile_bin_array` gives the symbol `a ≥ 0` to exactly `min step (T - step·a)` samples
+(truncated subtraction): `step` samples in every full bin, the remaining `T - step·a` in the last,
+short bin, none beyond; no sample gets a negative symbol.  `qbin_equal_occupancy` is the case
+`bins | T`. -/
+theorem qbin_occupancy_any_length (row : List Rat) (bins : Nat) (hnd : row.Nodup)
+    (hT : 1 ≤ row.length) (hb : 1 ≤ bins) (a : Int) :
+    qbinOccupancy row bins a =
+      if 0 ≤ a then min (binEdge row.length bins) (row.length - binEdge row.length bins * a.toNat)
+      else 0 :=
+  qbinOccupancy_general row bins hnd hT hb a
+
+/-- which symbols occur at all: exactly `0 … ceil(T / step) - 1` -/
+theorem qbin_symbol_used_iff (row : List Rat) (bins : Nat) (hnd : row.Nodup)
+    (hT : 1 ≤ row.length) (hb : 1 ≤ bins) (a : Int) :
+    0 < qbinOccupancy row bins a ↔ 0 ≤ a ∧ binEdge row.length bins * a.toNat < row.length := by
+  rw [qbin_occupancy_any_length row bins hnd hT hb a]
+  have hstep : 1 ≤ binEdge row.length bins := by
+    unfold binEdge
+    exact (Nat.one_le_div_iff (by omega)).mpr (by omega)
+  by_cases ha : 0 ≤ a
+  · rw [if_pos ha]
+    constructor
+    · intro h; exact ⟨ha, by omega⟩
+    · intro ⟨_, h⟩; omega
+  · rw [if_neg ha]
+    constructor
+    · intro h; omega
+    · intro ⟨h, _⟩; exact absurd h ha
+
+/-- `T = 7`, `bins = 3`: `step = 3`, occupancies `3, 3, 1` -/
+example : (List.range 5).map (fun a => qbinOccupancy [5, 1, 4, 2, 3, 7, 6] 3 (Int.ofNat a - 1)) =
+    [0, 3, 3, 1, 0] := by decide +kernel
+/-- `T = 5`, `bins = 4`: `step = 2`, only three symbols are used: `2, 2, 1` -/
+example : (List.range 5).map (fun a => qbinOccupancy [5, 1, 4, 2, 3] 4 (Int.ofNat a)) =
+    [2, 2, 1, 0, 0] := by decide +kernel
 
 end Pyunicorn.Coupling
